@@ -147,7 +147,7 @@ static void sets(int n, std::vector<Str> &srcs, std::vector<Str> &bases) {
 }
 
 void run(Ctx &ctx) {
-    Local lc; int n = ctx.secondary ? 1 : ctx.quick() ? 2 : 3;
+    Local lc; int n = (ctx.secondary ? 1 : ctx.quick() ? 2 : 3) + ctx.bonus;
     std::vector<Str> srcs, bases; sets(n, srcs, bases);
     Runner<char> ra(&ctx, &lc); Runner<wchar_t> rw(&ctx, &lc); ra.setup(bases); if (n <= 2) rw.setup(bases);
     for (size_t i = 0; i < srcs.size(); i++) { if (!ctx.mine(i)) continue; if (ctx.expired()) break; ra.run_src(srcs[i]); if (n <= 2) rw.run_src(srcs[i]); }
